@@ -503,6 +503,18 @@ def nondiff_rows():
                         row["blocks"] = bool(onp.allclose(g, onp.broadcast_to(rr.astype(float), onp.shape(x))))
                     else:
                         row["blocks"] = True
+                    if mode == "vjp" and rr is not None and rr.dtype.kind in "fiub":
+                        # an output that does not depend on the argument at all: ONE VJP function, called three times; the caller owns
+                        # what a call returns and may change it in place - every call still returns an exact zero of the argument's space
+                        hv, _val = make_vjp(lambda v: np.sum(onp.asarray(call(fn, v), dtype=float)) * 1.0)(x)
+                        outs = []
+                        for gq in (1.0, 1.0, 2.0):
+                            z = hv(gq)
+                            outs.append(bool(onp.shape(z) == onp.shape(x) and not onp.any(onp.asarray(z))))
+                            if isinstance(z, onp.ndarray) and z.flags.writeable:
+                                z += 5.0
+                        row["indep_again"] = outs
+                        row["blocks"] = bool(row["blocks"] and all(outs))
                 except Exception as ex:     # noqa
                     row["exc"] = type(ex).__name__ + ": " + str(ex)[:80]
                 rows.append(row)
